@@ -201,7 +201,7 @@ pub fn run(run: &mut PropRun, ctx: &Ctx) {
                 signal, worker death), no call longer than 4 s in process, and no hang where bash ends within 1.5 s and brush twice exceeds 12 s; non-trivial = text of at least 4 bytes (2 in process)"
         .into();
     run.assumptions.push("texts naming commands or paths outside the sandbox's allow-list (kill, absolute system paths, ...) are not executed; syntax highlighting is covered by C19".into());
-    let n = ctx.tier.pick(4000, 120_000);
+    let n = ctx.tier.pick(20_000, 400_000);
     run.add(explore(&Exec { name: "exec-templates" }, templates(), n, ctx));
     let n = ctx.tier.pick(3000, 120_000);
     run.add(explore(&Exec { name: "exec-corpus-mutants" }, mutants(), n, ctx));
